@@ -301,7 +301,7 @@ def run(ctx):
         for hname in ("Matern52", "ExpQuad"):
             def mk(adv, hname=hname):
                 is_mask = isinstance(adv[0], bool)
-                return W.Node("base", W.AD("mask" if is_mask else "list", np.array(adv) if is_mask else list(adv), "-"), name=hname, ls=1.25)
+                return W.Node("base", W.AD("mask" if is_mask else "list", list(adv), "-"), name=hname, ls=1.25)     # masks as plain lists here
             A_, B_ = mk(first), mk(second)
             Xh, Yh = W.point_sets(rng, 2)
             jXh, jYh = jnp.asarray(Xh), jnp.asarray(Yh)
